@@ -100,6 +100,43 @@ pub fn run(tier: Tier) -> i32 {
             ctx.sample(json!({"input": inp.label, "bytes": brief_bytes(&inp.bytes), "len": inp.bytes.len(), "options": format!("{:?}", inp.opts), "graph_states": g.states, "graph_edges": g.edges, "merges": g.merges, "merge_audits": g.audits, "failed_nodes": g.failed_nodes, "finish_probes": g.finish_probes, "max_states_per_offset": g.max_states_per_offset, "one_shot_ok": g.oneshot_ok}));
         }
     });
+    // ---------------------------------------------------------------- adversarially trained long symbols: tail exploration
+    {
+        let reps = tier.pick(110usize, 180usize);
+        let (prog, first) = corpus::adversarial_program(reps);
+        let t1 = Instant::now();
+        let mut jobs: Vec<(String, Vec<u8>, Opts, Vec<u32>, usize)> = Vec::new();
+        for (marker, sized) in [(true, false), (false, true)] {
+            let it = corpus::Item { name: format!("adversarial-{}", reps), lc: 0, lp: 0, pb: 0, dict: 1 << 20, prog: prog.clone(), marker, sized };
+            for k in [corpus::OptKind::Header, corpus::OptKind::ProvidedSome, corpus::OptKind::ProvidedNone] {
+                if let Some(b) = it.build(k) {
+                    // start a little before the first expensive symbol
+                    let start = b.table[first - 1].0.saturating_sub(25);
+                    for bytewise in [false, true] {
+                        let init: Vec<u32> = if bytewise { vec![1; start] } else { stream_graph::write_all_history(&b.bytes, &b.opts, start) };
+                        jobs.push((format!("{} [{:?}] marker={} prefix fed {} then every chunking of the last {} bytes; longest symbol {} bytes", it.name, k, marker, if bytewise { "bytewise" } else { "at once" }, b.bytes.len() - start, b.max_symbol_bytes), b.bytes.clone(), b.opts, init, b.max_symbol_bytes));
+                    }
+                }
+            }
+        }
+        let longest = jobs.iter().map(|j| j.4).max().unwrap_or(0);
+        let agg2 = Mutex::new((0u64, 0u64));
+        par_for(jobs.len() as u64, |i| {
+            let (label, bytes, opts, init, _) = &jobs[i as usize];
+            let g = stream_graph::explore_from(&ctx, bytes, opts, &Mode::Equivalence, label, init);
+            ctx.eval(g.edges);
+            ctx.nontriv(1);
+            let mut a = agg2.lock().unwrap();
+            a.0 += g.states;
+            a.1 += g.edges;
+            if i == 0 {
+                ctx.sample(json!({"input": label, "len": bytes.len(), "graph_states": g.states, "graph_edges": g.edges, "finish_probes": g.finish_probes, "max_states_per_offset": g.max_states_per_offset}));
+            }
+        });
+        let a2 = agg2.lock().unwrap();
+        ctx.set_extra("longest_symbol_in_adversarial_stream_input_bytes", json!(longest));
+        ctx.scope_done(&format!("adversarial-long-symbol-tails/{}-graphs", jobs.len()), jobs.len() as u64, t1, &format!("{} states, {} edges; longest symbol {} input bytes (decoder look-ahead limit 20)", a2.0, a2.1, longest));
+    }
     let a = agg.lock().unwrap();
     ctx.set_extra("merges", json!(a.2));
     ctx.set_extra("merge_audits", json!(a.3));
